@@ -180,6 +180,19 @@ DFXP_SLOPPY = """<?xml version="1.0" encoding="utf-8"?>
  </body>
 </tt>
 """
+DFXP_PLANG = """<?xml version="1.0" encoding="utf-8"?>
+<tt xml:lang="en" xmlns="http://www.w3.org/ns/ttml" xmlns:tts="http://www.w3.org/ns/ttml#styling">
+ <body>
+  <div xml:lang="en-US">
+   <p begin="00:00:01.000" end="00:00:02.000" xml:lang="en">one</p>
+   <p begin="00:00:03.000" end="00:00:04.000" xml:lang="fr">deux</p>
+   <p begin="00:00:05.000" end="00:00:06.000" xml:lang="de">drei</p>
+   <p begin="00:00:07.000" end="00:00:08.000" xml:lang="es">cuatro</p>
+   <p begin="00:00:09.000" end="00:00:10.000" xml:lang="it">cinque</p>
+  </div>
+ </body>
+</tt>
+"""
 VTT_BAD = "WEBVTT\n\n00:05.000 --> 00:02.000\nend before start\n\n00:06.000 --> 00:07.000\nfine\n"
 SRT_NONE = "1\n"
 
@@ -188,7 +201,7 @@ def docs():
     return {
         "scc_long": ("SCC", SCC_LONG), "scc_left": ("SCC", SCC_LEFT), "scc_badtc": ("SCC", SCC_BADTC),
         "dfxp_none": ("DFXP", DFXP_NONE), "dfxp_ta": ("DFXP", DFXP_TA), "sami_ta": ("SAMI", SAMI_TA),
-        "vtt_bad": ("WebVTT", VTT_BAD), "srt_none": ("SRT", SRT_NONE), "dfxp_sloppy": ("DFXP", DFXP_SLOPPY),
+        "vtt_bad": ("WebVTT", VTT_BAD), "srt_none": ("SRT", SRT_NONE), "dfxp_sloppy": ("DFXP", DFXP_SLOPPY), "dfxp_plang": ("DFXP", DFXP_PLANG),
         "srt1": ("SRT", _head(_ex("example.srt"), "\n\n", 8)), "srt2": ("SRT", SRT2),
         "vtt1": ("WebVTT", _head(_ex("example.vtt"), "\n\n", 9)), "vtt2": ("WebVTT", VTT2),
         "dfxp1": ("DFXP", DFXP1), "dfxp2": ("DFXP", DFXP2), "dfxp_px": ("DFXP", DFXP_PX),
@@ -225,6 +238,17 @@ BUILDS = {
         {"s": 3000000, "e": 4000000, "nodes": [["s", True, {"class": "c2"}], ["t", "span"], ["s", False, {"class": "c2"}]]}]}],
         "styles": {"c1": {"text-align": "center", "color": "red"}, "c2": {"text-align": "left"}}},
     "b_empty": {"langs": []},
+    # a span left open in one caption and a caption that makes writers with relativize raise, in one set
+    "b_unclosed_px": {"langs": [{"lang": "en-US", "caps": [
+        {"s": 1000000, "e": 2000000, "nodes": [["t", "before "], ["s", True, {"italics": True}], ["t", "never closed"]]},
+        {"s": 3000000, "e": 4000000, "layout": {"o": [["64", "px"], ["36", "px"]]}, "nodes": [["t", "pixels"]]}]}]},
+    # spans and captions with several of the properties DFXP spells as attributes
+    "b_richspan": {"langs": [{"lang": "en-US", "caps": [
+        {"s": 1000000, "e": 2000000, "style": {"color": "white", "font-family": "Arial", "font-size": "12", "text-align": "center"},
+         "nodes": [["t", "a "], ["s", True, {"color": "red", "font-family": "Courier", "font-size": "10", "text-align": "right",
+                                              "italics": True}], ["t", "rich"],
+                   ["s", False, {"color": "red", "font-family": "Courier", "font-size": "10", "text-align": "right", "italics": True}]]}]}],
+        "styles": {"k": {"color": "blue", "font-family": "Times", "font-size": "9", "text-align": "left", "display-align": "before"}}},
     "b_nodelayouts": {"langs": [{"lang": "en-US", "caps": [
         {"s": 1000000, "e": 2000000, "nodes": [["t", "one", {"o": [["10", "%"], ["10", "%"]]}], ["b"],
                                                 ["t", "two", {"o": [["50", "%"], ["10", "%"]]}], ["b"],
